@@ -2228,6 +2228,7 @@ func (r *Raft) pickServer() *Server {
 // mainloop.
 func (r *Raft) initiateLeadershipTransfer(id *ServerID, address *ServerAddress) LeadershipTransferFuture {
 	future := &leadershipTransferFuture{ID: id, Address: address}
+	future.ShutdownCh = r.shutdownCh
 	future.init()
 
 	if id != nil && *id == r.localID {
